@@ -1,6 +1,8 @@
 //! Shared checker modules (each property has its own binary under src/bin/).
 pub mod qmodel;
 pub mod rdfstore;
+pub mod sess;
+pub mod mvccchain;
 pub mod txmgr;
 
 pub fn replay_report(prop: &str, viols: Vec<vcore::Violation>) -> i32 {
